@@ -8,6 +8,8 @@ pub mod c04;
 pub mod c05;
 pub mod c06;
 pub mod c09;
+pub mod c17;
+pub mod c18;
 pub mod c19;
 
 pub fn lookup(id: &str) -> Option<&'static dyn Property> {
@@ -19,6 +21,8 @@ pub fn lookup(id: &str) -> Option<&'static dyn Property> {
         "C05" => &c05::C05,
         "C06" => &c06::C06,
         "C09" => &c09::C09,
+        "C17" => &c17::C17,
+        "C18" => &c18::C18,
         "C19" => &c19::C19,
         _ => return None,
     };
